@@ -129,7 +129,6 @@ Definition byebye_of (o : op) : option pystr :=
   end.
 
 (* ------------------------------------------------------------------ the domain *)
-Definition is_meta (lk : pystr) : bool := match lk with c :: _ => c =? 95 | [] => false end.
 
 (* Reading: the targeted search listener (unicast target) is not part of this property; the _udn
    metadata is the one the decoder derives from USN; locations lie inside the reading. *)
